@@ -17,7 +17,11 @@ op  = ["bind", m, prefix|None, ns, override, replace]   Graph.bind / NamespaceMa
       ["ncname", text]                   rdflib.namespace.is_ncname(text) (stateless)
       ["catrange", lo, hi]               unicodedata.category of every code point lo ≤ c < hi, run-length encoded
                                          (stateless; the 272 blocks of 4096 code points are walked round-robin by case index)
-      ["serdoc", m, fmt, [[s, p, o, kind]…]]  serialize(format=turtle|n3) of a fresh graph (same store, same
+      ["badinit", mode]                  Graph(store, bind_namespaces="cc" | anything unknown).namespace_manager raises, binds nothing
+      ["sertrig", 1, [[kind, graph IRI, [[s, p, o, kind]…]]…]]  serialize(format="trig") of a Dataset whose named graphs
+                                         (kind "g") go through manager 0 and whose default graph (kind "d") through manager 1;
+                                         one document, one @prefix table; both managers are reset() afterwards
+      ["serdoc", m, fmt, [[s, p, o, kind]…]]  serialize(format=turtle|n3|longturtle|longturtle-canon|trig) of a fresh graph (same store, same
                                          manager) holding these triples (kind "u" IRI / "l" plain literal); the
                                          OUTPUT is checked (prefix table, re-parse) and its @prefix table is
                                          compared with the model's; the manager is reset() afterwards
@@ -35,6 +39,7 @@ import warnings
 import core  # noqa: F401
 import c17_tables
 from rdflib import Dataset, Graph, Literal, Namespace, URIRef
+from rdflib.graph import DATASET_DEFAULT_GRAPH_ID
 from rdflib.namespace import NamespaceManager
 from rdflib.plugins.stores.memory import Memory, SimpleMemory
 import rdflib.namespace as _N
@@ -105,7 +110,8 @@ _SP_BREAK = ["/", "#", ":", "€", "?", "=", "~", "@"]
 _RUNS = c17_tables.category_runs() + [(c17_tables.LIMIT, None)]
 # runs a generated character may come from: no controls / line separators (line protocol), no surrogates (ASSUMPTIONS)
 _UNI_RUNS = [(a, _RUNS[i + 1][0]) for i, (a, k) in enumerate(_RUNS[:-1]) if k not in ("Cc", "Cs", "Zl", "Zp")]
-_STATELESS = ("sbind", "expand", "split", "ncname", "catrange")
+_STATELESS = ("sbind", "expand", "split", "ncname", "catrange", "badinit")
+DOC_FORMATS = ["turtle", "turtle", "n3", "longturtle", "longturtle-canon", "trig"]
 CAT_BLOCK = 4096
 CAT_BLOCKS = c17_tables.LIMIT // CAT_BLOCK
 
@@ -172,6 +178,18 @@ def _doc_triples(rng, nss, counter, n):
     return ts
 
 
+def _trig_contexts(rng, nss, counter):
+    """contexts of one TriG document: the default graph and/or one or two named graphs (names in the case's
+    namespaces, so that a graph name can use a prefix), 1-3 triples each"""
+    kinds = rng.choice([["d", "g"], ["g", "d"], ["g", "g", "d"], ["g"], ["d"], ["g", "g"]])
+    out = []
+    for kd in kinds:
+        counter[0] += 1
+        iri = "" if kd == "d" else rng.choice(nss) + "g" + str(counter[0])
+        out.append([kd, iri, _doc_triples(rng, nss, counter, rng.randint(1, 3))])
+    return out
+
+
 def _foreign_fields(rng):
     return {"via": rng.choice(["ctor", "setter"]), "fstore": rng.choice(["memory", "simple"]),
             "own": rng.choice(["memory", "simple"])}
@@ -193,8 +211,10 @@ def gen_collision_case(rng):
     ops, counter = list(binds), [0]
     for _ in range(rng.randint(1, 3)):
         r = rng.random()
-        if r < 0.75:
-            ops.append(["serdoc", 0, rng.choice(["turtle", "turtle", "n3"]), _doc_triples(rng, vn, counter, rng.randint(2, 4))])
+        if r < 0.15:
+            ops.append(["sertrig", 1, _trig_contexts(rng, vn, counter)])
+        elif r < 0.75:
+            ops.append(["serdoc", 0, rng.choice(DOC_FORMATS), _doc_triples(rng, vn, counter, rng.randint(2, 4))])
         elif r < 0.9:
             ops.append(["qname", 0, rng.choice(vn) + "x"])
         else:
@@ -266,7 +286,7 @@ def _gen_case(rng, tier, i):
             ops.append(list(rng.choice(qs)))  # ask again later: (q, bind, q) interleavings
             continue
         kind = _w(rng, [("bind", 38), ("sbind", 3), ("qname", 12), ("cq", 9), ("cqs", 5), ("qstrict", 3), ("curie", 7),
-                        ("n3", 6), ("expand", 4), ("reset", 3), ("parse", 4), ("parsexml", 2), ("ser", 3), ("serdoc", 3), ("split", 7), ("ncname", 2)])
+                        ("n3", 6), ("expand", 4), ("reset", 3), ("parse", 4), ("parsexml", 2), ("ser", 3), ("serdoc", 4), ("sertrig", 2), ("split", 7), ("ncname", 2), ("badinit", 1)])
         if kind == "bind":
             ov, rp = _w(rng, [((True, False), 5), ((False, False), 2), ((True, True), 2), ((False, True), 2)])
             ops.append(["bind", mgr(), pre(), rng.choice(vn), ov, rp])
@@ -302,8 +322,12 @@ def _gen_case(rng, tier, i):
             ops.append(["split", gen_split_iri(rng) if rng.random() < 0.8 else rng.choice(iris), rng.random() < 0.35])
         elif kind == "ncname":
             ops.append(["ncname", gen_ncname_probe(rng)])
+        elif kind == "badinit":
+            ops.append(["badinit", rng.choice(["cc", "cc", "bogus", "RDFLIB", ""])])
+        elif kind == "sertrig":
+            ops.append(["sertrig", 1, _trig_contexts(rng, absns, counter)])
         elif kind == "serdoc":
-            ops.append(["serdoc", mgr(), rng.choice(["turtle", "turtle", "n3"]), _doc_triples(rng, absns, counter, rng.randint(1, 4))])
+            ops.append(["serdoc", mgr(), rng.choice(DOC_FORMATS), _doc_triples(rng, absns, counter, rng.randint(1, 4))])
     case = {"cfg": cfg, "bn": bn, "bn1": bn1, "vp": vp, "vn": vn, "ops": ops}
     if cfg == "foreign":
         case.update(_foreign_fields(rng))
@@ -360,7 +384,56 @@ def doc_order(cfg, triples, k):
     return [[str(a), str(b), str(c), "l" if isinstance(c, Literal) else "u"] for a, b, c in g.triples((None, None, None))]
 
 
-_PREFIX_LINE = re.compile(r"^\s*@prefix\s+([^\s:]*):\s*<([^>]*)>\s*\.\s*$")
+def doc_order_canon(triples):
+    """longturtle with canon=True re-sorts the graph through scratch graphs (LongTurtleSerializer.canonize:
+    N-Triples lines sorted, parsed into a fresh Graph, de-skolemised into another); the serializer then walks
+    that last graph.  Same calls on the same triples in the same process = the same set order."""
+    g = Graph(store=Memory())
+    for s_, p_, o_, kd in triples:
+        g.add((URIRef(s_), URIRef(p_), _term(o_, kd)))
+    lines = g.serialize(format="application/n-triples").split("\n")
+    lines.sort()
+    g2 = Graph()
+    g2.parse(data="\n".join(lines), format="application/n-triples", skolemize=True)
+    g3 = g2.de_skolemize()
+    return [[str(a), str(b), str(c), "l" if isinstance(c, Literal) else "u"] for a, b, c in g3.triples((None, None, None))]
+
+
+def build_trig_dataset(ctxs, nm0=None, nm1=None):
+    """the Dataset written by a sertrig op: a fresh Memory store (so that the order of its contexts and triples
+    depends on this op alone), named graphs created through the dataset (they share its manager), then the
+    triples context by context"""
+    ds = Dataset(store=Memory())
+    if nm0 is not None:
+        ds.namespace_manager = nm0
+        ds.default_context.namespace_manager = nm1
+    quads = set()
+    for kd, iri, triples in ctxs:
+        tgt = ds.default_context if kd == "d" else ds.graph(URIRef(iri))
+        for s_, p_, o_, k2 in triples:
+            t = (URIRef(s_), URIRef(p_), _term(o_, k2))
+            tgt.add(t)
+            quads.add(t + ("" if kd == "d" else iri,))
+    return ds, quads
+
+
+def trig_order(ctxs):
+    """[(manager index, [(iri, generate)…])…]: the contexts in the order TrigSerializer meets them (the store's
+    contexts, then the non-empty default graph once more), each with its name and the nodes of its triples"""
+    ds, _q = build_trig_dataset(ctxs)
+    seq = list(ds.contexts()) + ([ds.default_context] if len(ds.default_context) else [])
+    out = []
+    for c in seq:
+        if len(c) == 0:
+            continue
+        qs = [(str(c.identifier), False)] if isinstance(c.identifier, URIRef) else []
+        for a, b, o in c.triples((None, None, None)):
+            qs += [(str(a), False), (str(b), True)] + ([(str(o), False)] if isinstance(o, URIRef) else [])
+        out.append((1 if c.identifier == DATASET_DEFAULT_GRAPH_ID else 0, qs))
+    return out
+
+
+_PREFIX_LINE = re.compile(r"^\s*(?:@prefix|PREFIX)\s+([^\s:]*):\s*<([^>]*)>\s*\.?\s*$")
 
 
 def doc_prefix_table(text):
@@ -471,24 +544,49 @@ class Impl:
             tmp.add(t)
         self.doc_problems = []
         try:
-            text = tmp.serialize(format=fmt)
-            table = doc_prefix_table(text)
-            ps = [p for p, _n in table]
-            if len(set(ps)) != len(ps):
-                self.doc_problems.append("docprefix: a prefix is declared twice in the %s output: %r" % (fmt, sorted(table)))
-            try:
-                back = set(Graph(bind_namespaces="none").parse(data=text, format=fmt))
-                if back != set(ts):
-                    self.doc_problems.append(
-                        "docroundtrip: the %s output does not read back as the graph; missing %r, unexpected %r, "
-                        "prefix table %r" % (fmt, sorted(set(ts) - back)[:2], sorted(back - set(ts))[:2], sorted(table)))
-            except Exception as e:  # noqa: BLE001
-                self.doc_problems.append("docroundtrip: the %s output cannot be parsed: %s" % (fmt, str(e)[:120]))
-            return "doc " + " ".join(sorted(p + ">" + n for p, n in table)), None
+            if fmt == "longturtle-canon":
+                text = tmp.serialize(format="longturtle", canon=True)
+            else:
+                text = tmp.serialize(format=fmt)
+            return self.check_doc(text, fmt, set(ts)), None
         finally:
             for t in ts:
                 tmp.remove(t)
             nm.reset()
+
+    def sertrig(self, op):
+        nm0, nm1 = self.g[0].namespace_manager, self.g[1].namespace_manager
+        ds2, quads = build_trig_dataset(op[2], nm0, nm1)
+        self.doc_problems = []
+        try:
+            return self.check_doc(ds2.serialize(format="trig"), "trig", quads, quads=True), None
+        finally:
+            nm0.reset()
+            nm1.reset()
+
+    def check_doc(self, text, fmt, ts, quads=False):
+        """oracle on the OUTPUT of a serialisation (independent of Lean): no prefix declared twice, the text reads
+        back as exactly the triples (quads) written; returns the observation line (the @prefix table)"""
+        table = doc_prefix_table(text)
+        ps = [p for p, _n in table]
+        if len(set(ps)) != len(ps):
+            self.doc_problems.append("docprefix: a prefix is declared twice in the %s output: %r" % (fmt, sorted(table)))
+        try:
+            if fmt == "trig":
+                rd = Dataset()
+                rd.parse(data=text, format="trig")
+                cid = lambda c: c.identifier if isinstance(c, Graph) else c
+                back = {(a, b, c) + (("" if cid(g_) in (None, DATASET_DEFAULT_GRAPH_ID) else str(cid(g_)),) if quads else ())
+                        for a, b, c, g_ in rd.quads((None, None, None, None))}
+            else:
+                back = set(Graph(bind_namespaces="none").parse(data=text, format="turtle" if fmt.startswith("longturtle") else fmt))
+            if back != set(ts):
+                self.doc_problems.append(
+                    "docroundtrip: the %s output does not read back as the graph; missing %r, unexpected %r, "
+                    "prefix table %r" % (fmt, sorted(set(ts) - back)[:2], sorted(back - set(ts))[:2], sorted(table)))
+        except Exception as e:  # noqa: BLE001
+            self.doc_problems.append("docroundtrip: the %s output cannot be parsed: %s" % (fmt, str(e)[:120]))
+        return "doc " + " ".join(sorted(p + ">" + n for p, n in table))
 
     def graph(self, m):
         if self.cfg == "dataset" and m == 0 and self.k % 2 == 1:
@@ -528,6 +626,14 @@ class Impl:
             return "s " + str(r), str(r)
         if kind == "serdoc":
             return self.serdoc(op)
+        if kind == "sertrig":
+            return self.sertrig(op)
+        if kind == "badinit":
+            if alt:
+                Graph(store=self.store, bind_namespaces=op[1]).namespace_manager
+            else:
+                NamespaceManager(Graph(store=self.store), bind_namespaces=op[1])
+            return "ok", None
         if kind == "split":
             r = _N.split_uri(op[1], _N.NAME_START_CATEGORIES) if op[2] else _N.split_uri(op[1])
             return "split %s>%s" % (str(r[0]), r[1]), (str(r[0]), r[1])
@@ -677,15 +783,16 @@ def run_impl(case):
         except Exception as e:  # noqa: BLE001
             out, res = _err(e), None
             stats["err_" + out[4:]] = stats.get("err_" + out[4:], 0) + 1
-            if kind in ("bind", "sbind", "minit", "parse", "parsexml", "reset", "ser", "serdoc") and not (
+            if kind in ("bind", "sbind", "minit", "parse", "parsexml", "reset", "ser", "serdoc", "sertrig") and not (
                     kind == "bind" and op[2] is not None and " " in op[2]):
                 viol.append(f"raises-{type(e).__name__}: step {k} {kind} raised {type(e).__name__}: {str(e)[:80]}")
         if kind not in ("bind", "sbind", "minit", "parse", "parsexml") and len(list(im.store.namespaces())) > before:
             stats["generated"] = stats.get("generated", 0) + 1
-        if kind == "serdoc":
+        if kind in ("serdoc", "sertrig"):
             viol += ["%s (step %d)" % (x, k) for x in im.doc_problems]
             im.doc_problems = []
-            stats["serdoc_" + op[2]] = stats.get("serdoc_" + op[2], 0) + 1
+            fm = op[2] if kind == "serdoc" else "trig-dataset"
+            stats["serdoc_" + fm] = stats.get("serdoc_" + fm, 0) + 1
         _check_bij(im, case, k, viol)
         if kind == "split" and res is not None:
             stats["split_ok"] = stats.get("split_ok", 0) + 1
@@ -741,11 +848,23 @@ def model_lines(case):
             lines.append(f"{k} {op[1]} " + " ".join(_e(p) + " " + _e(n) for p, n in op[2]))
         elif k == "ser":
             lines.append(f"ser {op[1]} {_e(op[2])} {_e(op[3])} {_e(op[4])}")
+        elif k == "badinit":
+            lines.append("minit 0 " + ("cc" if op[1] == "cc" else "bogus"))
+        elif k == "sertrig":
+            # fb = 0: the written dataset lives on a store of its own, which holds no bindings
+            lines.append("sertrig 0 " + " / ".join(
+                " ".join([str(m)] + [x for u, g in qs for x in (_e(u), _b(g))]) for m, qs in trig_order(op[2])))
         elif k == "serdoc":
+            kind_ = doc_store_kind(case, op[1])
             qs = []
-            for s_, p_, o_, kd in doc_order(doc_store_kind(case, op[1]), op[3], idx + 1):
+            if op[2] == "trig" and kind_ != "simple":
+                qs += [_e(str(doc_ctx(idx + 1))), "0"]  # TrigSerializer: getQName(context.identifier, False) first
+            order = doc_order_canon(op[3]) if op[2] == "longturtle-canon" else doc_order(kind_, op[3], idx + 1)
+            for s_, p_, o_, kd in order:
                 qs += [_e(s_), "0", _e(p_), "1"] + ([_e(o_), "0"] if kd == "u" else [])
-            fb = "0" if (case["cfg"] == "foreign" and op[1] == 0) else "1"  # getQName's fallback reads the graph's own store
+            # getQName's fallback reads the own store of the graph being written: a borrowed manager's graph and
+            # the scratch graph of longturtle's canon=True hold no bindings
+            fb = "0" if ((case["cfg"] == "foreign" and op[1] == 0) or op[2] == "longturtle-canon") else "1"
             lines.append(f"serdoc {op[1]} {fb} " + " ".join(qs))
         else:
             raise AssertionError(k)
@@ -771,6 +890,14 @@ def shrink(case):
         if op[0] == "serdoc" and len(op[3]) > 1:
             for j in range(len(op[3])):
                 yield {**case, "ops": ops[:i] + [[op[0], op[1], op[2], op[3][:j] + op[3][j + 1:]]] + ops[i + 1:]}
+        if op[0] == "sertrig":
+            for j in range(len(op[2])):
+                if len(op[2]) > 1:
+                    yield {**case, "ops": ops[:i] + [[op[0], op[1], op[2][:j] + op[2][j + 1:]]] + ops[i + 1:]}
+                kd, iri, ts = op[2][j]
+                for t in range(len(ts)):
+                    if len(ts) > 1:
+                        yield {**case, "ops": ops[:i] + [[op[0], op[1], op[2][:j] + [[kd, iri, ts[:t] + ts[t + 1:]]] + op[2][j + 1:]]] + ops[i + 1:]}
         if op[0] in ("parse", "parsexml") and len(op[2]) > 1:
             for j in range(len(op[2])):
                 if op[0] == "parsexml" and op[2][j][0] == "rdf":
